@@ -533,6 +533,19 @@ func (p *Prog) ReachingStore(v ssa.Value, at ssa.Instruction) ssa.Value {
 	if cell == nil {
 		return nil
 	}
+	if rs, complete := p.ReachingStores(u); complete && len(rs) > 0 {
+		// one store, or several stores of the very same value
+		same := true
+		for _, s := range rs {
+			if s.Val != rs[0].Val {
+				same = false
+			}
+		}
+		if same {
+			return rs[0].Val
+		}
+		return nil
+	}
 	b := u.Block()
 	idx := len(b.Instrs)
 	for i, ins := range b.Instrs {
